@@ -264,6 +264,20 @@ NUMBER_BITS = ["0", "1", "9", "07", "10", "123", "0x1", "1u", "1L", "1ull", "1.5
 FILE_BITS = ['"g.c"', '"a b.c"', '"d\\\\e.c"', '"q\\"r.c"', '""', '"g.c', 'g.c"', "'g.c'", '<g.c>', 'L"g.c"', '"g.c" 1', '"g.c" 1 3 4', '"g.c" x', '"g.c" "h.c"', '"' + "f" * 3000 + '.c"', '"\xb2.c"']
 
 
+def sliding_shard(arg):
+    """A valid unit repeated many times behind j empty declarations (see C02):
+    every construct of the unit stands on every token index; parse() must
+    return a FileAST or a located ParseError whatever happens every so many tokens."""
+    from . import c02
+
+    j, reps = arg
+    st = Stats()
+    src = ";" * j + "\n" + c02.POSITION_UNIT * reps
+    if _check_text(src, 1000, 0, st, "noise", (src, "f.c"), cpu=120):
+        st.nontrivial += 1
+    return st
+
+
 def literal_shard(arg):
     """Every string of length <= n over the literal alphabets of C10 (digits,
     suffix letters, '.', exponent and sign characters, quotes, backslash, prefix
@@ -410,6 +424,11 @@ def run(ctx):
     ctx.map(directive_shard, [(s, ctx.pick(600, 12000)) for s in ctx.shard_seeds(16, 9)])
     from . import c10
 
+    from .. import reflex as _reflex
+    from . import c02 as _c02
+
+    ulen = len(_reflex.pp_tokens(_c02.POSITION_UNIT))
+    ctx.map(sliding_shard, [(j, ctx.pick(120, 800)) for j in range(0, ulen, ctx.pick(2, 1))], chunksize=4)
     nlit = ctx.pick(4, 5)
     ctx.map(literal_shard, [(name, nlit, f) for name, alph in (("int", c10.ALPH_INT), ("flt", c10.ALPH_FLT), ("chr", c10.ALPH_CHR)) for f in alph])
     bounds["literal_strings"] = "length<=%d over the three literal alphabets of C10 x 2 positions" % nlit
